@@ -794,13 +794,20 @@ theorem active_hc_bit_owned_by_checkers (checked : Cid → Bool) (cfg : Cid → 
     (ops : List SOp) (op : SOp) (a : Addr)
     (hne : ((HealthShare.run (HealthShare.St.init checked cfg words0) ops).w.words a).active ≠
            ((HealthShare.step (HealthShare.run (HealthShare.St.init checked cfg words0) ops) op).1.w.words a).active) :
-    ∃ k r c, op = .result k a r ∧ (HealthShare.run (HealthShare.St.init checked cfg words0) ops).w.chk k a = some c ∧ c.running = true ∧
+    ∃ k r c, op = .result k a r ∧ (HealthShare.run (HealthShare.St.init checked cfg words0) ops).c.checked k = true ∧
+      (HealthShare.run (HealthShare.St.init checked cfg words0) ops).w.chk k a = some c ∧ c.running = true ∧
       ((r = .success ∧ ((HealthShare.run (HealthShare.St.init checked cfg words0) ops).w.words a).active = true ∧
           ((HealthShare.run (HealthShare.St.init checked cfg words0) ops).w.thr k).2 ≤ trail Result.ok (.success :: c.rev)) ∨
        (r.bad = true ∧ ((HealthShare.run (HealthShare.St.init checked cfg words0) ops).w.words a).active = false ∧
           ((HealthShare.run (HealthShare.St.init checked cfg words0) ops).w.thr k).1 ≤ trail Result.bad (r :: c.rev))) := by
   have hg := good_run checked cfg words0 ops
-  generalize HealthShare.run (HealthShare.St.init checked cfg words0) ops = s at hne hg ⊢
+  have hn := noChk_run _ ops (noChk_init checked cfg words0)
+  generalize HealthShare.run (HealthShare.St.init checked cfg words0) ops = s at hne hg hn ⊢
+  have hck : ∀ k c, s.w.chk k a = some c → s.c.checked k = true := by
+    intro k c hc
+    cases h : s.c.checked k with
+    | true => rfl
+    | false => rw [hn k h a] at hc; cases hc
   have key : ∀ o : HealthLifecycle.Op, (HealthShare.step s op).1.w = (HealthLifecycle.step s.w o).1 →
       ∃ k r c, o = .result k a r ∧ s.w.chk k a = some c ∧ c.running = true ∧
         ((r = .success ∧ (s.w.words a).active = true ∧ (s.w.thr k).2 ≤ trail Result.ok (.success :: c.rev)) ∨
@@ -822,7 +829,7 @@ theorem active_hc_bit_owned_by_checkers (checked : Cid → Bool) (cfg : Cid → 
   | result k' a' r' =>
     obtain ⟨k, r, c, e, rest⟩ := key (.result k' a' r') (step_result s k' a' r').1
     cases e
-    exact ⟨_, _, c, rfl, rest⟩
+    exact ⟨_, _, c, rfl, hck _ c rest.1, rest⟩
   | outlier a' on =>
     obtain ⟨k, r, c, e, _⟩ := key (.outlier a' on) (step_outlier s a' on)
     cases e
